@@ -87,3 +87,28 @@ Proof.
   intros H. apply webp_sanitize_sound in H.
   eapply webp_spec_mono; [|exact H]. intros w h b. apply model_implies_reference.
 Qed.
+
+(* ------------------------------------------------------------------ completeness at file level (C06 + C08) *)
+(* a lossless payload the reference reading decodes for dimensions below 2^32 pixels, and that is not one of the two
+   documented strictness cases *)
+Definition decodable_ok (w h : N) (b : bytes) : bool :=
+  (0 <? w) && (w <=? 2 ^ 24) && (0 <? h) && (h <=? 2 ^ 24) && (w * h <? 2 ^ 32)
+  && vp8l_spec w h b && negb (strict_exception w h b).
+
+Lemma decodable_implies_model w h b : decodable_ok w h b = true -> is_ok (lossless_read w h b) = true.
+Proof.
+  unfold decodable_ok. intros H.
+  repeat (apply andb_prop in H; destruct H as [H ?]).
+  assert (D : dims w h) by (unfold dims; lia).
+  rewrite (model_complete w h b D); [reflexivity | assumption |].
+  destruct (strict_exception w h b); [discriminate | reflexivity].
+Qed.
+
+Theorem webpsan_accepts_decodable_files allow lenient ms inp fuel :
+  ilen inp <= ms -> (N.to_nat (ilen inp / 8) < fuel)%nat ->
+  webp_spec decodable_ok allow inp = true ->
+  webp_sanitize lossless_read allow lenient ms inp fuel = Ok tt.
+Proof.
+  intros Hms Hf H. apply webp_sanitize_complete; [exact Hms | exact Hf |].
+  eapply webp_spec_mono; [|exact H]. intros w h b. apply decodable_implies_model.
+Qed.
